@@ -8,10 +8,13 @@ namespace Chem.Drv
 open Chem
 
 /-- the character classes the generators use; the harness reports Rust's verdict on the same
-    characters (`classify` op) and the orchestrator checks the two tables agree -/
+    characters (`classify` op) and the orchestrator checks, on EVERY character of every generated string, that the two agree
+    (a disagreement is a broken check, not a finding) -/
 def drvCC : CharClass where
-  alpha c := isAsciiAlpha c || c == 233 || c == 20013
-  numeric c := isAsciiDigit c || c == 178
+  alpha c := isAsciiAlpha c || c == 233 || c == 20013 || c == 0x212A || c == 0x17F ||
+    (0x130 ≤ c && c ≤ 0x139) || (0x430 ≤ c && c ≤ 0x439)
+  numeric c := isAsciiDigit c || c == 178 || (0x660 ≤ c && c ≤ 0x669) || (0xFF10 ≤ c && c ≤ 0xFF19) ||
+    (0x1D7CE ≤ c && c ≤ 0x1D7D7)
   upper c := isAsciiUpper c
 
 def keyMassOf (T : Table) (k : Key) : Int :=
@@ -119,9 +122,15 @@ def runCompCase (line : String) : String :=
     let m := keyMassOf T
     let n := nregs.toNat?.getD 4
     let opStrs := (opsStr.splitOn ";").filter (· ≠ "")
+    -- a typed key must be a key of the table: the real code cannot weigh `ElementSpecification::new(C, 99)` (it indexes the
+    -- element's isotopes and panics) while `keyMassOf` is total — such a line is outside what the model says anything about
+    let validKey (k : Key) : Bool := match T.find? k.1 with
+      | some e => k.2 == 0 || (e.iso? k.2).isSome
+      | none => false
     match opStrs.mapM parseOp with
     | none => "bad-op"
     | some ops =>
+      if !(ops.flatMap opKeys).all validKey then "bad-op" else
       -- universe of keys: every key mentioned, plus what every string argument denotes
       let strKeys := ops.filterMap (fun o => match o with
         | .sset _ s _ | .sadd _ s _ | .incs _ s _ | .gsm _ s _ | .gets _ s | .sidx _ s =>
